@@ -24,7 +24,8 @@ RULE = ('Generated sessions (3-6 symbols with hash-diverse names, dense markets 
         'one) against the in-process run under hash seed 0. Oracle: the digest - history events (fills without order '
         'ids), equity curve and recorded target allocations incl. column order, all by repr - must be identical '
         'everywhere. Non-trivial = >= 3 assets and >= 1 rebalance producing >= 2 fills; the same-instant-entry / tie '
-        'class is counted separately.')
+        'class is counted separately.'
+        " Part `reuse` (in-process): a fresh run against a run on a data-handler object that already served another session, with one symbol's file starting inside the session and the asset joining the universe shortly before its first bar; and sessions that build their own handler from the current directory after a backtest was run from another directory. Alpha kinds also include rotating weight vectors and a model reading the data source's range query.")
 ASSUMPTIONS = [
     'hash seeds 0-3 (quick) / 0-4 plus one derived from VERIF_SEED (thorough)',
     'order identifiers (uuid4) are excluded from the comparison, as the statement says',
@@ -35,7 +36,7 @@ SYMS = ['SPY', 'AGG', 'XLB', 'XLC', 'A', 'AB', 'Z9', 'Q_1', 'GLD', 'TLT', 'EEM',
 _workers = {}
 
 
-def session_digest(case, fresh=False, data_source=None, path=None, shared=None, keep=None):
+def session_digest(case, fresh=False, data_source=None, path=None, shared=None, keep=None, data_handler=None):
     """Runs the case's session and returns its digest (a dict of lists of strings)."""
     if fresh:
         clear_caches()
@@ -47,7 +48,7 @@ def session_digest(case, fresh=False, data_source=None, path=None, shared=None, 
             except Exception:                                     # noqa  (a prelude may be an invalid configuration)
                 pass
     if path is not None:
-        r = session.run_session(cfg, path, list(mk), data_source=data_source, shared=shared)
+        r = session.run_session(cfg, path, list(mk), data_source=data_source, shared=shared, data_handler=data_handler)
     else:
         with market.csv_dir(mk) as p:
             r = session.run_session(cfg, p, list(mk), data_source=data_source, shared=shared)
@@ -217,6 +218,16 @@ def run_case(case):
     if d or base['error'] != warm['error']:
         raise Violation('a data source that already served another session gives different results: %s' % (
             d or (base['error'], warm['error'])))
+    # the very same data-handler object serves another session first, then the case
+    with market.csv_dir(mk) as path:
+        ds_h = q.CSVDailyBarDataSource(path, q.Equity, adjust_prices=cfg.get('adjust', True), csv_symbols=list(mk))
+        h = q.BacktestDataHandler(None, data_sources=[ds_h])
+        session_digest({'cfg': variant(cfg), 'market': mk}, data_source=ds_h, path=path, data_handler=h)
+        same_h = session_digest(case, data_source=ds_h, path=path, data_handler=h)
+    d = session.first_diff(base, same_h)
+    if d or base['error'] != same_h['error']:
+        raise Violation('a data handler that already served another session gives different results: %s' % (
+            d or (base['error'], same_h['error'])))
     if case.get('two_sources'):
         _two_source_handler(q, case)
         cls_two = ['two_source_handler_reused']
@@ -239,8 +250,73 @@ def run_case(case):
     return Result(cls, nontrivial=len(mk) >= 3 and nf >= 2, info={'fills': nf})
 
 
+def run_reuse(case):
+    """In-process only (no worker interpreters, so many more cases): a fresh run against a run on a data handler - and
+    its data source - that already served another session over the same files."""
+    q = load()
+    cfg, mk = case['cfg'], case['market']
+    base = session_digest(case, fresh=True)
+    with market.csv_dir(mk) as path:
+        ds_h = q.CSVDailyBarDataSource(path, q.Equity, adjust_prices=cfg.get('adjust', True), csv_symbols=list(mk))
+        h = q.BacktestDataHandler(None, data_sources=[ds_h])
+        session_digest({'cfg': variant(cfg), 'market': mk}, data_source=ds_h, path=path, data_handler=h)
+        same_h = session_digest(case, data_source=ds_h, path=path, data_handler=h)
+    clear_caches()
+    d = session.first_diff(base, same_h)
+    if d or base['error'] != same_h['error']:
+        raise Violation('a data handler that already served another session gives different results: %s' % (
+            d or (base['error'], same_h['error'])))
+    cls = list(case.get('labels', [])) + [cfg['alpha']['kind'], cfg['universe']['kind'], cfg['rebalance']]
+    if case.get('cwd_mode'):
+        # sessions that build their own handler: from QSTRADER_CSV_DATA_DIR when set, else from the current directory.
+        # A backtest run from directory B must read B's files whatever ran before it in the process
+        other = {s: market.build_rows(977 + i, cal.date3(cfg['start']) - D.timedelta(days=9), 70) for i, s in enumerate(mk)}
+        old_env, old_cwd = os.environ.get('QSTRADER_CSV_DATA_DIR'), os.getcwd()
+
+        def own(p_sig):
+            r_ = session.run_session(cfg, p_sig, list(mk), own_handler=True)
+            d_ = session.digest(r_)
+            d_['error'] = [repr(r_.error[:2] + (str(r_.error[2]),))] if r_.error else []
+            return d_
+        with market.csv_dir(mk) as pb, market.csv_dir(other) as pa:
+            try:
+                clear_caches()
+                os.environ['QSTRADER_CSV_DATA_DIR'] = pb
+                ref = own(pb)
+                os.environ.pop('QSTRADER_CSV_DATA_DIR', None)
+                os.chdir(pa)
+                own(pb)
+                os.chdir(pb)
+                got = own(pb)
+            finally:
+                os.chdir(old_cwd)
+                if old_env is None:
+                    os.environ.pop('QSTRADER_CSV_DATA_DIR', None)
+                else:
+                    os.environ['QSTRADER_CSV_DATA_DIR'] = old_env
+                clear_caches()
+        d = session.first_diff(ref, got)
+        if d or ref['error'] != got['error']:
+            raise Violation('a session building its own data handler from the current directory gives different results '
+                            'after a backtest was run from another directory in the same process: %s' % (
+                                d or (ref['error'], got['error'])))
+        cls.append('own_handler_from_current_directory')
+    nf = int(base['nfills'][0])
+    if base['error']:
+        cls.append('session_error')
+    return Result(cls, nontrivial=nf >= 2 and 'member_before_its_first_bar' in cls and not base['error'], info={'fills': nf})
+
+
 @st.composite
-def cases(draw):
+def reuse_cases(draw):
+    case = draw(cases(late=True))
+    case.pop('two_sources', None)
+    case['cwd_mode'] = draw(st.sampled_from([False, False, True]))
+    return case
+
+
+@st.composite
+def cases(draw, late=False):
     d0, d1, start, end = draw(sessgen.window(min_days=8, max_days=45))
     names = draw(st.lists(st.sampled_from(SYMS), min_size=3, max_size=6, unique=True))
     tie = draw(st.booleans())
@@ -261,9 +337,24 @@ def cases(draw):
         lab = lab + ['same_instant_entrants']
     if tie:
         lab = lab + ['tie_prone_market']
+    if late or draw(st.sampled_from([False, False, True])):
+        # one symbol's file starts a few days into the session (it may already be a universe member by then)
+        s_ = draw(st.sampled_from(names))
+        k_ = draw(st.integers(1, 6))
+        cut_ = d0 + D.timedelta(days=k_)
+        rows_ = [r for r in mk[s_] if D.date(r[0], r[1], r[2]) >= cut_]
+        if rows_:
+            mk[s_] = rows_
+            lab = lab + ['symbol_file_starts_inside_session']
+            if cfg['universe']['kind'] == 'dynamic' and (late or draw(st.booleans())):
+                # ... and it joins the universe a little before its first bar exists
+                e_ = cut_ - D.timedelta(days=draw(st.integers(0, 3)))
+                cfg['universe']['dates']['EQ:' + s_] = [e_.year, e_.month, e_.day, 0, 0, 0]
+                lab = lab + ['member_before_its_first_bar']
     return {'cfg': cfg, 'market': mk, 'labels': lab, 'two_sources': draw(st.sampled_from([False, False, True]))}
 
 
 PARTS = [
     Part('sessions', 'hyp', run_case, strategy=cases(), quick=160, thorough=9600, quick_shards=8),
+    Part('reuse', 'hyp', run_reuse, strategy=reuse_cases(), quick=640, thorough=32000, quick_shards=8),
 ]
